@@ -208,6 +208,16 @@ class StereoCondensedReactionGraph(StereoMolGraph, CondensedReactionGraph):
             if not change_dict:
                 del self._bond_stereo_change[bond]
 
+    def remove_bond(self, atom1: AtomId, atom2: AtomId):
+        """Removes the bond between atom1 and atom2 together with the stereo
+        information and the stereo changes of that bond.
+
+        :param atom1: Atom1
+        :param atom2: Atom2
+        """
+        super().remove_bond(atom1, atom2)
+        self._bond_stereo_change.pop(Bond((atom1, atom2)), None)
+
     def remove_atom(self, atom: AtomId):
         """Removes an atom from the graph and deletes all stereo information
         and all stereo changes that mention it.
